@@ -31,7 +31,8 @@ GENERATED = {'Gen/TypeOrder.v': type_order.translate}
 
 # ------------------------------------------------------------------------------------------------
 # value trees (exactly the wire format of Model/Compare.v)
-#   (0) MISSING (1) None (2 b) (3 z) (4 m e) (5 cps) (6 sym (v..)) (7 (v..)) (8 sym ((key v)..)) (9 cps ((key v)..));  key: (0 cps) | (1 z)
+#   (0) MISSING (1) None (2 b) (3 z) (4 m e) (5 cps) (6 sym (v..)) (7 (v..)) (8 sym ((key v)..)) (9 cps ((key v)..) uid);  key: (0 cps) | (1 z)
+#   uid 0 = the class of that __qualname__ in CLASS_FIELDS; uid 1 = a second, different class with the same __qualname__ (only 'A' has one)
 def S(s): return [ord(c) for c in s]
 def US(cps): return ''.join(chr(c) for c in cps)
 MISSING, NONE = [0], [1]
@@ -42,7 +43,7 @@ def Sv(s): return [5, S(s)]
 def Lv(sym, xs): return [6, 1 if sym else 0, list(xs)]
 def Tv(xs): return [7, list(xs)]
 def Dv(sym, kvs): return [8, 1 if sym else 0, [[mk_key(k), v] for k, v in kvs]]
-def Ov(name, kvs): return [9, S(name), [[mk_key(k), v] for k, v in kvs]]
+def Ov(name, kvs, uid=0): return [9, S(name), [[mk_key(k), v] for k, v in kvs], uid]
 def mk_key(k): return k if isinstance(k, list) else ([0, S(k)] if isinstance(k, str) else [1, k])
 def key_py(k): return US(k[1]) if k[0] == 0 else k[1]
 
@@ -53,7 +54,7 @@ def classes():
   """pg.Object classes used by the generator: a base class, a subclass without and one with extra fields,
   an unrelated class with the same fields, a class whose fields are declared in non-alphabetical order, and a
   class that does not opt into symbolic comparison."""
-  if _CLS: return _CLS
+  if len(_CLS) > 1: return _CLS
   import pyglove as pg
   ns = {}
   src = '''
@@ -76,6 +77,11 @@ class Nc(pg.Object):
   p: pg.typing.Any()
 '''
   exec(compile(src, 'c06_classes', 'exec'), ns)
+  import types
+  mod = types.ModuleType('c06_twin'); sys.modules['c06_twin'] = mod; ns2 = mod.__dict__
+  exec(compile('import pyglove as pg\nclass A(pg.Object):\n  x: pg.typing.Any()\n  y: pg.typing.Any()\n', 'c06_twin', 'exec'), ns2)
+  assert ns2['A'] is not ns['A'] and ns2['A'].__qualname__ == 'A'
+  _CLS['A#twin'] = ns2['A']
   for n in CLASS_FIELDS:
     c = ns[n]
     assert c.__qualname__ == n and [str(k) for k in c.__schema__.keys()] == CLASS_FIELDS[n], (n, c.__qualname__, list(c.__schema__.keys()))
@@ -96,7 +102,7 @@ def canon(v, under_sym=False):
     return [8, sym, [[k, canon(x, bool(sym))] for k, x in v[2]]]
   if t == 9:
     name = US(v[1]); got = {key_py(k): x for k, x in v[2]}
-    return [9, v[1], [[mk_key(f), canon(got.get(f, MISSING), True)] for f in CLASS_FIELDS[name]]]
+    return [9, v[1], [[mk_key(f), canon(got.get(f, MISSING), True)] for f in CLASS_FIELDS[name]], v[3]]
   return v
 
 def buildable(v, under_sym=False, in_tuple=False):
@@ -129,7 +135,7 @@ def build(v):
     d = {key_py(k): build(x) for k, x in v[2]}
     return pg.Dict(d) if v[1] else d
   if t == 9:
-    cls = classes()[US(v[1])]
+    cls = classes()[US(v[1]) + ('#twin' if v[3] else '')]
     kw = {key_py(k): build(x) for k, x in v[2] if x[0] != 0}
     return cls.partial(**kw) if len(kw) < len(v[2]) else cls(**kw)
   raise ValueError(v)
@@ -155,7 +161,7 @@ def readback(o):
     items = o.sym_items() if isinstance(o, pg.Dict) else o.items()
     return [8, 1 if isinstance(o, pg.Dict) else 0, [[mk_key(k), readback(x)] for k, x in items]]
   if isinstance(o, pg.Object):
-    return [9, S(type(o).__qualname__), [[mk_key(k), readback(x)] for k, x in o.sym_items()]]
+    return [9, S(type(o).__qualname__), [[mk_key(k), readback(x)] for k, x in o.sym_items()], 1 if type(o) is classes()['A#twin'] else 0]
   raise ValueError(type(o))
 
 def norm_float(v):
@@ -166,7 +172,7 @@ def norm_float(v):
     return [4, m, e]
   if v[0] == 6: return [6, v[1], [norm_float(x) for x in v[2]]]
   if v[0] == 7: return [7, [norm_float(x) for x in v[1]]]
-  if v[0] in (8, 9): return [v[0], v[1], [[k, norm_float(x)] for k, x in v[2]]]
+  if v[0] in (8, 9): return [v[0], v[1], [[k, norm_float(x)] for k, x in v[2]]] + v[3:]
   return v
 
 # ------------------------------------------------------------------------------------------------
@@ -240,7 +246,7 @@ class Gen:
       ents = [[k, self.variant(x, sym)] for k, x in v[2]]
       if r.random() < .8: r.shuffle(ents)
       return [8, 1 if sym else 0, ents]
-    if t == 9: return [9, v[1], [[k, self.variant(x, True)] for k, x in v[2]]]
+    if t == 9: return [9, v[1], [[k, self.variant(x, True)] for k, x in v[2]], v[3]]
     return v
 
   # a nearby different value
@@ -288,20 +294,22 @@ class Gen:
       name = US(v[1]); ents = [list(e) for e in v[2]]; k = r.random()
       if k < .5 and ents:
         i = r.randrange(len(ents)); ents[i][1] = self.mutant(ents[i][1], True)
-        return [9, v[1], ents]
+        return [9, v[1], ents, v[3]]
       same = [n for n in CLASS_FIELDS if n != name and CLASS_FIELDS[n] == CLASS_FIELDS[name]]
-      if same and k < .85: return [9, S(r.choice(same)), ents]
-      if name in ('A', 'A1'): return [9, S('A2'), ents + [[mk_key('z'), self.value(1, True)]]]
+      if name == 'A' and k < .58: return [9, v[1], ents, 1 - v[3]]      # same __qualname__, different class
+      if same and k < .85: return [9, S(r.choice(same)), ents, 0]
+      if name in ('A', 'A1'): return [9, S('A2'), ents + [[mk_key('z'), self.value(1, True)]], 0]
       return Ov(name, [(key_py(kk), self.value(1, True)) for kk, _ in ents])
     return v
 
-def in_domain(v, fam):
+def in_domain(v, fam, twins_ok=False):
   """Mirror of Compare.cmp_ok (the theorems' domain) for the generator's class table."""
   t = v[0]
-  if t == 6: return all(in_domain(x, fam) for x in v[2])
+  if t == 6: return all(in_domain(x, fam, twins_ok) for x in v[2])
   if t == 7: return fam is not None and all((is_num(x) if fam == 'num' else x[0] == 5) for x in v[1])
   if t in (8, 9):
-    return len({json.dumps(k) for k, _ in v[2]}) == len(v[2]) and all(in_domain(x, fam) for _, x in v[2])
+    if t == 9 and v[3] != 0 and not twins_ok: return False
+    return len({json.dumps(k) for k, _ in v[2]}) == len(v[2]) and all(in_domain(x, fam, twins_ok) for _, x in v[2])
   return True
 
 def kind_of(v):
@@ -326,7 +334,8 @@ def pool():
        Ov('A', [('x', Iv(1)), ('y', Iv(2))]), Ov('A', [('x', F(1, 0)), ('y', Iv(2))]), Ov('A', [('x', Iv(2)), ('y', Iv(1))]), Ov('A1', [('x', Iv(1)), ('y', Iv(2))]),
        Ov('A2', [('x', Iv(1)), ('y', Iv(2)), ('z', Iv(3))]), Ov('Bb', [('x', Iv(1)), ('y', Iv(2))]), Ov('Zq', [('q', Iv(1)), ('p', Iv(2))]),
        Ov('Zq', [('q', Iv(2)), ('p', Iv(1))]), Ov('Nc', [('p', Iv(1))]), Ov('A', [('x', Iv(1))]), Ov('A', [('x', NONE), ('y', NONE)]),
-       Ov('A', [('x', Dv(1, [a1, b2])), ('y', Lv(1, [Iv(1)]))]), Ov('A', [('x', Dv(1, [b2, a1])), ('y', Lv(1, [B(True)]))])]
+       Ov('A', [('x', Dv(1, [a1, b2])), ('y', Lv(1, [Iv(1)]))]), Ov('A', [('x', Dv(1, [b2, a1])), ('y', Lv(1, [B(True)]))]),
+       Ov('A', [('x', Iv(1)), ('y', Iv(2))], uid=1)]
   return [canon(v) for v in P]
 
 # ------------------------------------------------------------------------------------------------
@@ -376,6 +385,7 @@ def _try(f):
   except BaseException as e: return ('raise', type(e).__name__)
 
 def dict_disc(ta, tb):
+  if ta[0] == 9 and tb[0] == 9 and ta[1] == tb[1] and ta[3] != tb[3]: return 'same-qualname-different-class'
   if ta[0] in (8, 9) and tb[0] in (8, 9):
     ka = [json.dumps(k) for k, _ in ta[2]]; kb = [json.dumps(k) for k, _ in tb[2]]
     mixed = len({k[0] for k, _ in ta[2]} | {k[0] for k, _ in tb[2]}) > 1
@@ -455,7 +465,7 @@ def sub_pairs(ta, tb):
     da = {json.dumps(k): x for k, x in ta[2]}; db = {json.dumps(k): x for k, x in tb[2]}
     out += [(da[k], db[k]) for k in da if k in db]
     if ta[0] == 9 and tb[0] == 9:      # objects: compare their attribute dicts instead
-      out.append(([8, 1, ta[2]], [8, 1, tb[2]]))
+      if ta[1] == tb[1] and ta[3] == tb[3]: out.append(([8, 1, ta[2]], [8, 1, tb[2]]))
     if ta[0] == 8 and tb[0] == 8:
       for k in list(da) + [k for k in db if k not in da]:
         out.append(([8, ta[1], [e for e in ta[2] if json.dumps(e[0]) != k]], [8, tb[1], [e for e in tb[2] if json.dumps(e[0]) != k]]))
@@ -488,9 +498,9 @@ def show(t):
   if k == 4: return repr(math.ldexp(t[1], -t[2]))
   if k == 5: return repr(US(t[1]))
   if k == 6: return ('pg.List([%s])' if t[1] else '[%s]') % ', '.join(show(x) for x in t[2])
-  if k == 7: return '(%s,)' % ', '.join(show(x) for x in t[1])
+  if k == 7: return '(%s%s)' % (', '.join(show(x) for x in t[1]), ',' if len(t[1]) == 1 else '')
   if k == 8: return ('pg.Dict({%s})' if t[1] else '{%s}') % ', '.join('%r: %s' % (key_py(kk), show(x)) for kk, x in t[2])
-  return '%s(%s)' % (US(t[1]), ', '.join('%s=%s' % (key_py(kk), show(x)) for kk, x in t[2]))
+  return '%s%s(%s)' % (US(t[1]), "'" if t[3] else '', ', '.join('%s=%s' % (key_py(kk), show(x)) for kk, x in t[2]))
 
 # ------------------------------------------------------------------------------------------------
 def _ops_flag(ta): return 1 if (ta[0] == 9 and US(ta[1]) in OPT_IN) else 0
@@ -503,7 +513,7 @@ def make_cases(ctx):
   # (A) small-scope sweep: every ordered pair of the pool
   for a in P:
     for b in P:
-      cases.append(dict(kind='pair', vals=[a, b], fam='num', dom=True, src='sweep'))
+      cases.append(dict(kind='pair', vals=[a, b], fam='num', dom=in_domain(a, 'num') and in_domain(b, 'num'), src='sweep'))
   # (B) random pairs, (C) random triples
   def fresh(g, d):
     for _ in range(50):
@@ -542,9 +552,10 @@ def make_cases(ctx):
     g = Gen(rng, fam)
     vals = []
     if rng.random() < .3: vals = [rng.choice(P) for _ in range(rng.randint(2, 7))] if fam == 'num' else []
+    vals = [v for v in vals if in_domain(v, fam)]
     while len(vals) < rng.randint(3, 9):
-      if vals and rng.random() < .5: vals.append(rel(g, rng.choice(vals))[0])
-      else: vals.append(fresh(g, rng.choice([0, 1, 2, 3])))
+      w = rel(g, rng.choice(vals))[0] if vals and rng.random() < .5 else fresh(g, rng.choice([0, 1, 2, 3]))
+      if in_domain(w, fam): vals.append(w)     # (a list holding two classes of one __qualname__ makes sorted() raise: pair cases cover that)
     rng.shuffle(vals)
     cases.append(dict(kind='sort', vals=vals, fam=fam, dom=all(in_domain(v, fam) for v in vals), src='sort'))
   for v in [MISSING, NONE, B(True), Iv(3), F(3, 1), Sv('s'), Lv(0, []), Lv(1, []), Tv([]), Dv(0, []), Dv(1, [])] + \
@@ -688,7 +699,7 @@ def run(ctx):
   ctx.extra['sweep'] = dict(exhaustive=True, what='all ordered pairs of the %d pool values' % len(pool()), pairs=len(pool()) ** 2)
   # the direct oracle on every case of the theorems' domain (and on the disagreeing ones)
   n_or = 0
-  todo = [c for c in cases if c['dom'] and c['kind'] != 'probe'] + [cases[owner[i]] for i in bad[:50] if cases[owner[i]]['kind'] != 'probe']
+  todo = [c for c in cases if c['kind'] != 'probe' and (c['dom'] or all(in_domain(v, c['fam'], True) for v in c['vals']))] + [cases[owner[i]] for i in bad[:50] if cases[owner[i]]['kind'] != 'probe']
   for c in todo:
     n_or += 1
     for sig, what, shrunk in oracle(c):
